@@ -195,6 +195,10 @@ fn run_lane<P: Prop>(
             let pid = child.id();
             match child.try_wait() {
                 Ok(Some(status)) => {
+                    // scratch files of the finished worker (only ever of a dead pid)
+                    let _ = fs::remove_dir_all(
+                        std::env::temp_dir().join(format!("tuverif-{pid}")),
+                    );
                     let has_summary = shard_has_summary(&sh.out);
                     if status.success() && has_summary {
                         sh.finished = true;
@@ -297,6 +301,9 @@ fn run_lane<P: Prop>(
                                 // non-termination decided in CPU time, not wall-clock
                                 let _ = child.kill();
                                 let _ = child.wait();
+                                let _ = fs::remove_dir_all(
+                                    std::env::temp_dir().join(format!("tuverif-{pid}")),
+                                );
                                 let case = describe_case::<P>(tier, lane.name, cseed);
                                 let v = Violation {
                                     signature: "non-termination".to_string(),
